@@ -31,6 +31,9 @@ func (e *Evaluator) Eval(x *Term) uint64 {
 	case OpConst:
 		return x.Val
 	case OpVar:
+		if x.W == 0 {
+			return e.M[x.Name] & 1
+		}
 		return e.M[x.Name] & mask(x.W)
 	}
 	if v, ok := e.memo[x]; ok {
